@@ -239,6 +239,10 @@ def scenario(sh: Shard, seed, idx, regime):
             l2 = sorted(s_.identifier for s_ in out["spas2"])
             if l2 != sorted(listed):
                 sh.violation("C15:second-run-differs", f"a second locator in the same process, against the same well-behaved spas, lists {l2} where the first listed {sorted(listed)}", wit)
+        # a discovery run asks: at least one hello left its endpoint (otherwise nobody can answer)
+        hellos = [d for d in w.net.dgrams if d.dir == "c2s" and d.verb == "HELLO"]
+        if not hellos and dur > 0.5:
+            sh.violation("C15:no-hello-sent", f"discovery ran {dur:.2f}s without a single hello leaving its endpoint", wit)
         # timing
         specific = ("spa_identifier" in kw) or ("spa_address" in kw)
         if dur > T_MAX + slack:
